@@ -16,7 +16,7 @@ def main(tier, seed):
     rng = random.Random(seed + 9)
     nviol = 0
     # ---- supervised / semi-supervised: batch vs singleton vs permuted vs repeated calls; correspondence on the batch
-    N = 150 if tier == "quick" else 3000
+    N = 150 if tier == "quick" else 12000
     terms, expect, insts = [], [], []
     stats = dict(sup=0, semi=0, knn=0, unsup=0, queries=0)
     for i in range(N):
@@ -63,7 +63,7 @@ def main(tier, seed):
     bad = supcheck.corr(rep, "correspondence Model/Sup.predict_batch vs predict on batches with duplicates and training rows", "C09sup", terms, expect, insts)
     rep.corr["sup_batches"] = dict(cases=len(terms), disagreements=None if bad is None else len(bad))
     # ---- KNN-supervised / unsupervised
-    NK = 120 if tier == "quick" else 2500
+    NK = 120 if tier == "quick" else 8000
     for idx in range(NK):
         which = "knn" if idx % 2 == 0 else "unsup"
         m = rng.randint(2, 7)
